@@ -1601,4 +1601,74 @@ theorem stdOfCircuit_spec (seq : List Op) : stdOfCircuit seq = .ok (stdSpec seq)
     rw [← stdSpec_unwrap op]
     simp [List.flatMap]
 
+/-! ## Part 7: register tokens — `int(tok[1:-3])` / `int(tok[1:-4])` recover any register index (any number of digits) -/
+
+def digitStep (acc : Option Nat) (c : Char) : Option Nat :=
+  acc.bind fun n => if isDigitC c then some (10 * n + (c.toNat - '0'.toNat)) else none
+
+theorem readNat_eq (s : Str) : readNat s = if s.isEmpty then none else s.foldl digitStep (some 0) := rfl
+
+theorem digitChar_props (d : Nat) (h : d < 10) : isDigitC (Nat.digitChar d) = true ∧ (Nat.digitChar d).toNat - '0'.toNat = d := by
+  have h1 := Nat.toNat_digitChar_of_lt_ten h
+  constructor
+  · unfold isDigitC; rw [h1]; simp; omega
+  · rw [h1]; simp
+
+theorem foldDigits_toDigits (n : Nat) : (Nat.toDigits 10 n).foldl digitStep (some 0) = some n := by
+  induction n using Nat.strongRecOn with
+  | _ n ih =>
+    rw [Nat.toDigits_eq_if (by decide : 1 < 10)]
+    split
+    · rename_i hlt
+      obtain ⟨h1, h2⟩ := digitChar_props n hlt
+      have h2' : n.digitChar.toNat - 48 = n := h2
+      simp [digitStep, h1, h2']
+    · rename_i hge
+      have hlt : n % 10 < 10 := Nat.mod_lt _ (by decide)
+      obtain ⟨h1, h2⟩ := digitChar_props (n % 10) hlt
+      rw [List.foldl_append, ih (n / 10) (Nat.div_lt_self (by omega) (by decide))]
+      simp only [List.foldl_cons, List.foldl_nil, digitStep, Option.bind_some, h1, if_true, h2]
+      congr 1
+      omega
+
+/-- `int(str(n)) = n` for the model's reader and printer -/
+theorem readNat_showNat (n : Nat) : readNat (showNat n) = some n := by
+  rw [readNat_eq]
+  have hne : (showNat n).isEmpty = false := by
+    unfold showNat
+    cases h : Nat.toDigits 10 n with
+    | nil => exact absurd h Nat.toDigits_ne_nil
+    | cons _ _ => rfl
+  rw [hne]
+  exact foldDigits_toDigits n
+
+theorem pySlice_token (t : Char) (ds suffix : Str) :
+    pySlice 1 suffix.length (t :: ds ++ suffix) = ds := by
+  unfold pySlice
+  have : (t :: ds ++ suffix).length - suffix.length = (t :: ds).length := by
+    simp only [List.length_append, List.length_cons]; omega
+  rw [this, List.take_left']
+  · rfl
+  · rfl
+
+/-- the single-register branch reads `<type><index>[0]` back for every index, however many digits it has -/
+theorem regToken_single (q : QReg) : regToken 3 (q.render ++ "[0]".toList) = .ok (q.t.ch, q.i) := by
+  unfold QReg.render regToken
+  have h := pySlice_token q.t.ch (showNat q.i) "[0]".toList
+  simp only [List.cons_append] at h ⊢
+  have h3 : ("[0]".toList).length = 3 := rfl
+  rw [h3] at h
+  rw [h, readNat_showNat]
+
+/-- … and the control token of the two-register branch, which still carries the comma: `<type><index>[0],` -/
+theorem regToken_control (q : QReg) : regToken 4 (q.render ++ "[0],".toList) = .ok (q.t.ch, q.i) := by
+  unfold QReg.render regToken
+  have h := pySlice_token q.t.ch (showNat q.i) "[0],".toList
+  simp only [List.cons_append] at h ⊢
+  have h4 : ("[0],".toList).length = 4 := rfl
+  rw [h4] at h
+  rw [h, readNat_showNat]
+
+theorem regTOfChar_ch (t : RegT) : regTOfChar t.ch = some t := by cases t <;> rfl
+
 end Graphiq.Export
